@@ -242,6 +242,8 @@ class SynthDef(metaclass=MetaSynthDef):
             if isinstance(p.default, tuple)\
             and any(isinstance(v, Container) for v in p.default):
                 raise ValueError(f"tuple rank > 1 for parameter '{p.name}'")
+            if isinstance(p.default, tuple) and len(p.default) == 0:
+                raise ValueError(f"empty tuple for parameter '{p.name}'")
 
         # // What we do here is separate the ir, tr and kr rate arguments,
         # // create one Control ugen for all of each rate, and then construct
